@@ -326,9 +326,10 @@ Definition chk_estimate (c : Z * Z * option symdur) : bool :=
   let '(d, div, obs) := c in est_matches (estimate d div) obs.
 
 (* O4 on an observed estimator row, independent of the model: 0 = reports none,
-   1 = converts back exactly, 2 = inexact table hit within 1/1000 (+1e-9) quarter of a table value,
-   3 = inexact tuplet guess whose quotient is within 1/1000 (+1e-9) of actual_notes,
-   4 = anything else (a violation) *)
+   1 = converts back exactly, 2 = inexact table hit STRICTLY within 1/1000 quarter of the table value it names
+   (the documented eps; known finding K1), 5 = inexact table hit at a distance of EXACTLY 1/1000 quarter (the
+   float subtraction decides; K6), 3 = inexact tuplet guess whose quotient is within 1/1000 (+1e-9) of
+   actual_notes, 4 = anything else (a violation) -- in particular a table hit further away than 1/1000 *)
 Definition thousandth : Q := 1 # 1000.
 Definition table_value (sd : symdur) : option Q :=
   let '(ty, dots, tup) := sd in
@@ -349,7 +350,9 @@ Definition classify_row (d div : Z) (obs : option symdur) : Z :=
         match sd with
         | (ty, dots, None) =>
           match table_value sd with
-          | Some tv => if Qle_bool (Qabs (qdur - tv)) (thousandth + (1 # 1000000000)) then 2 else 4
+          | Some tv => if Qle_bool thousandth (Qabs (qdur - tv))
+                       then (if Qle_bool (Qabs (qdur - tv)) thousandth then 5 else 4)
+                       else 2
           | None => 4
           end
         | (ty, dots, Some (a, n)) =>
@@ -417,6 +420,13 @@ Fixpoint sweep_o4_from (d div : Z) (codes : list Z) : bool :=
               end && sweep_o4_from (d + 1) div r
   end.
 Definition chk_sweep_o4 (c : Z * list Z) : bool := sweep_o4_from 1 (fst c) (snd c).
+
+(* explicit rows (d, code) of one divisions value, judged as the sweep rows are *)
+Definition chk_rows_o4 (c : Z * list (Z * Z)) : bool :=
+  forallb (fun row => match decode_row (fst row) (fst c) (snd row) with
+                      | Some obs => negb (classify_row (fst row) (fst c) obs =? 4)
+                      | None => false
+                      end) (snd c).
 
 Definition chk_sweep_model (c : Z * list (Z * Z)) : bool :=
   forallb (fun row => match decode_row (fst row) (fst c) (snd row) with
